@@ -121,3 +121,4 @@ MANIFEST = {
     "technique": "runtime monitoring: exhaustive execution of the real env over all mask-admitted histories of small instances, compared with a brute-force reference enumeration",
     "design_ref": "DESIGN.md section 4 / C05",
 }
+MANIFEST["text"] += ' Rounds 7-8: SVRP integer-skill boundary instances; on FFSP every state the explorer steps into is compared with the documented dispatch rule (which jobs / idling are offered).'
